@@ -76,5 +76,19 @@ def run(case):
     return res
 
 
-PROFILES = {"solve": Profile("solve", lambda: sc.scenarios(PROF), run, quick=5000, thorough=120000, timeout=120)}
+ENUM_PROF = sc.make_prof(reg=0.1, zero_resid=0.1, diag=0.1, maxfuns=[12, 20, 30, 45], print_progress=0.0, route_bias=0.0, rhoend_exps=[1, 1, 2, 3])
+
+
+def run_enum(case):
+    """Budget enumeration: the scenario re-run with maxfun = 1..nf; the C03 clauses at every place the budget can end (exit during
+    the initial set, inside a sampling batch, a geometry step, a restart)."""
+    res = CaseResult()
+    nf, ref = sc.budget_enumeration(case, cl.c03, res, iter_hook_factory=lambda c: cl.iteration_hook(c, check_c03=True, check_c04=False))
+    res.classes += case["tags"]
+    res.nontrivial = bool(nf > case["npt"] + 2)
+    return res
+
+
+PROFILES = {"solve": Profile("solve", lambda: sc.scenarios(PROF), run, quick=5000, thorough=120000, timeout=120),
+            "budget-enum": Profile("budget-enum", lambda: sc.scenarios(ENUM_PROF), run_enum, quick=120, thorough=4000, timeout=600)}
 KNOWN = {"reprojected-solution": known_reprojected}
